@@ -17,7 +17,7 @@ use std::cell::{Cell, RefCell};
 use std::io::{self, ErrorKind, Read};
 
 pub fn subs() -> Vec<Sub> {
-    vec![Sub { name: "sequences", run: run_sequences }]
+    vec![Sub { name: "sequences", run: run_sequences }, Sub { name: "lensweep", run: run_lensweep }]
 }
 
 #[derive(Debug, Clone, PartialEq, Eq, serde::Serialize, serde::Deserialize)]
@@ -754,7 +754,74 @@ fn run_sequences(ctx: &Ctx) -> CheckResult {
     Ok(())
 }
 
-pub fn replay(_ctx: &Ctx, _check: &str, case: &Value) -> Result<(), String> {
+/// All 2^32 lengths through `FuzzyHashLengthEncoding::new` / `try_from` in THIS build:
+/// in the debug-assertion builds the three slice-bound `invariant!()`s are evaluated on every
+/// input (a false one panics); in the `unsafe` builds a false one is undefined behaviour, which
+/// shows as a crash or as a code different from the reference.
+pub fn case_len(api: &dyn GlobalApi, n: u32) -> Result<(), String> {
+    let got = catch(|| (api.len_new(n), api.len_try_from(n))).map_err(|p| format!("FuzzyHashLengthEncoding::new({}) panicked: {}", n, p))?;
+    let want = vmodel::length_code(n as u64);
+    if got.0 != want || got.1.ok() != want {
+        return Err(format!("FuzzyHashLengthEncoding::new({}) = {:?}, try_from = {:?}, but the reference code is {:?}", n, got.0, got.1, want));
+    }
+    Ok(())
+}
+
+fn run_lensweep(ctx: &Ctx) -> CheckResult {
+    let api = ctx.api;
+    let caps = api.caps();
+    // the sweep is about the invariants of `new()`: run it where they are evaluated (debug
+    // assertions) or handed to the optimiser (feature unsafe), once per kind of build
+    let dispatching = caps.features.iter().any(|f| f == "detect-features");
+    if !(dispatching && (caps.debug_assertions || caps.unsafe_)) {
+        ctx.skipped("lensweep: runs in default@dbg, unsafe@dbg and unsafe only");
+        return Ok(());
+    }
+    const SHARDS: u64 = 64;
+    const SHARD: u64 = (1u64 << 32) / SHARDS;
+    const CHUNK: usize = 1 << 18;
+    let shards: Vec<u64> = (0..SHARDS).collect();
+    let bad = super::common::par_map(ctx.threads, &shards, |&s| -> Option<u32> {
+        let mut buf = vec![0u16; CHUNK];
+        let mut off = 0u64;
+        while off < SHARD {
+            let base = (s * SHARD + off) as u32;
+            let ok = catch(|| api.len_sweep(base, &mut buf)).is_ok();
+            let scan_individually = !ok
+                || buf.iter().enumerate().any(|(i, &r)| {
+                    let n = base.wrapping_add(i as u32);
+                    let want = vmodel::length_code(n as u64);
+                    r & 0x600 != 0 || (r & 0x100 != 0) != want.is_none() || (want.is_some() && (r & 0xff) as u8 != want.unwrap())
+                });
+            if scan_individually {
+                for i in 0..CHUNK as u32 {
+                    if case_len(api, base.wrapping_add(i)).is_err() {
+                        return Some(base.wrapping_add(i));
+                    }
+                }
+            }
+            off += CHUNK as u64;
+        }
+        None
+    });
+    {
+        let mut ev = ctx.ev.borrow_mut();
+        ev.evaluations += 1u64 << 32;
+        ev.nontrivial_enumerated += 1u64 << 32;
+    }
+    ctx.subcheck("lensweep", 1u64 << 32);
+    if let Some(n) = bad.into_iter().flatten().next() {
+        let m = case_len(api, n).err().unwrap_or_else(|| "did not reproduce".into());
+        return Err(ctx.violation("lensweep", m, json!({ "n": n })));
+    }
+    ctx.exhaustive("all 2^32 lengths through FuzzyHashLengthEncoding::new / try_from in this build (invariants evaluated in @dbg builds)");
+    Ok(())
+}
+
+pub fn replay(ctx: &Ctx, check: &str, case: &Value) -> Result<(), String> {
+    if check == "lensweep" {
+        return case_len(ctx.api, case.get("n").and_then(|x| x.as_u64()).ok_or("n")? as u32);
+    }
     let s: Sequence = serde_json::from_value(case.get("sequence").cloned().ok_or("no sequence")?).map_err(|e| e.to_string())?;
     match run_one_in_child(&s)? {
         None => Ok(()),
